@@ -277,7 +277,15 @@ class Run(object):
             elif exact:
                 out.append(self.conv(p['p']))
             else:
-                out.append(re.compile(self.conv(p['p']), re.DOTALL | (re.VERBOSE if p.get('fl') == 'x' else 0)))
+                fl = p.get('fl') or ''
+                flags = re.DOTALL | (re.VERBOSE if 'x' in fl else 0) | (re.IGNORECASE if 'i' in fl else 0)
+                src = self.conv(p['p'])
+                if p.get('ot'):
+                    # compiled from the OTHER string type (str for a bytes-mode object, bytes for a unicode-mode one):
+                    # expect() converts such a pattern; it means what it says, flags included
+                    src = src.decode('utf-8') if isinstance(src, bytes) else src.encode('utf-8')
+                    self.w.probe('compiled_pattern_of_the_other_string_type')
+                out.append(re.compile(src, flags))
         return out
 
     def do_op(self, k, op):
